@@ -14,9 +14,10 @@ ID = "C09"
 PROP_FILE = "props/C09.v"
 RULE = ("queries mixing cacheable sub-expressions (root- and context-rooted sub-queries, constant comparisons, functions "
         "of them) with per-node ones (current node, current key), simple and compound, x a history of 3 documents "
-        "(doc, other, doc again, all through ONE compiled object) x filter caching {on, off}; 2..3 lazy iterators of the "
-        "same compiled query advanced in every interleaving of up to 4 steps each (exhaustive for <=70 schedules, else "
-        "sampled); 8 concurrent evaluations in a thread pool; document, filter context and compiled query (string form, "
+        "(doc, other, doc again, all through ONE compiled object) x filter caching {on, off}; the same document object "
+        "re-used after its contents were replaced in place; 2..3 lazy iterators of the same compiled query - over one "
+        "document, and over different documents / filter contexts - advanced in every interleaving of up to 4 steps each "
+        "(exhaustive for <=70 schedules, else sampled), each compared with what it yields alone; 8 concurrent evaluations in a thread pool; document, filter context and compiled query (string form, "
         "structure, ==, hash against a fresh compilation) compared before/after. non-trivial = the query has a filter; "
         "distinct = distinct (query text, documents)")
 TRUSTED = ["OS threads and the GIL are not modelled; 'never modifies the document' is checked on the implementation by "
@@ -59,6 +60,10 @@ def gen(rng, tier):
     n = 4000 if tier == "thorough" else 450
     for i in range(n):
         docs = [gen_container(rng, 3, 3, NAMES) for _ in range(2)]
+        for _ in range(6):
+            if type(docs[0]) is type(docs[1]):
+                break
+            docs[1] = gen_container(rng, 3, 3, NAMES)
         if rng.random() < 0.6:
             e = gen_cacheable_logical(rng, rng.randint(1, 3))
             pre = Q.gen_segs_for_doc(rng, docs[0], 1) if rng.random() < 0.4 else []
@@ -112,23 +117,51 @@ def impl(case):
         out["compile"] = ["err", exc_name(e)]
         return out
     str0, dump0, hash0 = str(c), Q.canon_ast(Q.dump_query(c)), hash(c)
+    env_nc = jsonpath.JSONPathEnvironment(filter_caching=False)
     out["first"] = attempt(lambda: show_matches(list(c.finditer(doc, filter_context=ctx))))
     out["on_other"] = attempt(lambda: [SX.canon(v) for v in c.findall(other, filter_context=ctx)])
     out["again"] = attempt(lambda: show_matches(list(c.finditer(doc, filter_context=ctx))))
     for _ in range(3):
         c.findall(doc, filter_context=ctx)
     out["hundredth"] = attempt(lambda: show_matches(list(c.finditer(doc, filter_context=ctx))))
-    env_nc = jsonpath.JSONPathEnvironment(filter_caching=False)
     out["no_cache"] = attempt(lambda: show_matches(list(env_nc.compile(text).finditer(doc, filter_context=ctx))))
-    # interleaved lazy iterators from the same compiled object
+    # the same document OBJECT, modified in place between two uses of the compiled query, is a new document
+    if type(doc) is type(other):
+        scratch = deep(case["doc"])
+        attempt(lambda: c.findall(scratch, filter_context=ctx))
+        if isinstance(scratch, dict):
+            scratch.clear()
+            scratch.update(deep(case["other"]))
+        else:
+            scratch[:] = deep(case["other"])
+        got_m = attempt(lambda: show_matches(list(c.finditer(scratch, filter_context=ctx))))
+        want_m = attempt(lambda: show_matches(list(env_nc.compile(text).finditer(deep(case["other"]), filter_context=ctx))))
+        out["mutated_in_place_ok"] = got_m == want_m
+        if got_m != want_m:
+            out["mutated_in_place_counterexample"] = {"got": got_m, "want": want_m}
+    else:
+        out["mutated_in_place_ok"] = True
+    # interleaved lazy iterators from the same compiled object: over one document, and over different documents /
+    # filter contexts (each must give what it gives alone)
     full = out["first"]
     ok_all = True
     nsched = 0
+    ctx2 = deep(case["ctx"])
+    ctx2.update({"k": 2, "s": "zz", "names": ["c"]})
+    variants = [(doc, ctx), (other, ctx), (doc, ctx2)]
+
+    def alone(d, cx):
+        return attempt(lambda: show_matches(list(env_nc.compile(text).finditer(deep(d), filter_context=deep(cx)))))
+    want_alone = [alone(d, cx) for d, cx in variants]
+    mixed_ok = all(isinstance(w, list) and not (w and w[0] == "err") for w in want_alone)
     if isinstance(full, list) and not (full and full[0] == "err"):
         steps = min(4, len(full) + 1)
         for sched in schedules(case["iters"], steps, case["sched_seed"]):
             nsched += 1
-            its = [iter(c.finditer(doc, filter_context=ctx)) for _ in range(case["iters"])]
+            mixed = mixed_ok and nsched % 2 == 0
+            args = [variants[i % 3] if mixed else variants[0] for i in range(case["iters"])]
+            wants = [want_alone[i % 3] if mixed else full for i in range(case["iters"])]
+            its = [iter(c.finditer(d, filter_context=cx)) for d, cx in args]
             got = [[] for _ in its]
             for i in sched:
                 try:
@@ -138,9 +171,9 @@ def impl(case):
                     pass
             for i, it in enumerate(its):
                 got[i] += [[[p if isinstance(p, int) else ["k", p] for p in m.parts], m.path, SX.canon(m.obj)] for m in it]
-            if any(g != full for g in got):
+            if any(g != w for g, w in zip(got, wants)):
                 ok_all = False
-                out["interleave_counterexample"] = {"schedule": list(sched), "got": got}
+                out["interleave_counterexample"] = {"schedule": list(sched), "mixed_documents": mixed, "got": got, "want": wants}
                 break
     out["interleaved_ok"] = ok_all
     out["schedules"] = nsched
@@ -204,13 +237,13 @@ def decode(sx, case):
     vals = [m[2] for m in ms] if fi[0] == "ok" else ms
     nodes = [[[p if isinstance(p, int) else ["k", p] for p in __import__("harness.common", fromlist=["x"]).sx_to_loc(n[0])],
               SX.canon(SX.sx2j(n[1]))] for n in spec[1]]
-    model = {"text": render(case), "first": ms, "again": ms, "hundredth": ms, "no_cache": ms, "interleaved_ok": True,
+    model = {"text": render(case), "first": ms, "again": ms, "hundredth": ms, "no_cache": ms, "interleaved_ok": True, "mutated_in_place_ok": True,
              "threads_agree": True, "threads_first": vals, "doc_unchanged": True, "ctx_unchanged": True,
              "query_unchanged": True, "recompiled_equal": True}
     model["cache"] = [[x[0] == "true", [[int(i) for i in pos] for pos in x[1]]] for x in extra.get("cache", [])]
     model["cached_run_equal"] = extra.get("cached-run-equal") == "true"
     spec_ = {k: [[m[0], m[1]] for m in nodes] for k in ("first", "again", "hundredth", "no_cache")}
-    spec_.update({"cached_run_equal": True, "interleaved_ok": True, "threads_agree": True, "threads_first": [m[1] for m in nodes], "doc_unchanged": True,
+    spec_.update({"cached_run_equal": True, "interleaved_ok": True, "mutated_in_place_ok": True, "threads_agree": True, "threads_first": [m[1] for m in nodes], "doc_unchanged": True,
                   "ctx_unchanged": True, "query_unchanged": True, "recompiled_equal": True})
     return {"model": model, "spec": spec_, "in_domain": ext[1] == "true" and wf[1] == "true"}
 
@@ -222,14 +255,14 @@ def project(case, res, dec=None):
     for k in ("first", "again", "hundredth", "no_cache"):
         v = res[k]
         out[k] = [[m[0], m[2]] for m in v] if isinstance(v, list) and not (v and v[0] == "err") else v
-    for k in ("cached_run_equal", "interleaved_ok", "threads_agree", "threads_first", "doc_unchanged", "ctx_unchanged", "query_unchanged",
+    for k in ("cached_run_equal", "interleaved_ok", "mutated_in_place_ok", "threads_agree", "threads_first", "doc_unchanged", "ctx_unchanged", "query_unchanged",
               "recompiled_equal"):
         out[k] = res[k]
     return out
 
 
 def for_model(case, res):
-    return {k: v for k, v in res.items() if k not in ("on_other", "schedules", "interleave_counterexample")}
+    return {k: v for k, v in res.items() if k not in ("on_other", "schedules", "interleave_counterexample", "mutated_in_place_counterexample")}
 
 
 def nontrivial(case, res):
